@@ -819,3 +819,29 @@ def lean_module(namespace, source_desc, classes, an, rows, extra=''):
         out += ['', extra]
     out += ['', 'end %s' % namespace, '']
     return '\n'.join(out)
+
+
+# ---------------------------------------------------------------------- diagnosis of a broken bridge
+def diagnose(core, ctx, tag, lean_text):
+    """When the bridge theorems no longer compile, say WHICH comparison fails: `lean_text` is a Lean script
+    that imports the (still compiling) lemma module and prints lines `DIAG <name> <value>`; every line whose
+    value is not `ok` is recorded as a broken tie `effects:<name>`.  (Purely informative: the verdict is
+    already 'theorem broken'; the failing-input search runs as for every broken obligation.)"""
+    import os
+    import re
+    path = os.path.join(ctx.scratch, 'Diag_%s.lean' % tag)
+    with open(path, 'w') as f:
+        f.write(lean_text)
+    try:
+        rc, out = core.run(['lake', 'env', 'lean', path], cwd=core.LEAN_DIR, timeout=600)
+    except Exception as e:   # the diagnosis is best effort
+        ctx.notes.append('effect-table diagnosis not available: %s' % e)
+        return
+    found = False
+    for m in re.finditer(r'^DIAG (\S+) (.*)$', out, re.M):
+        found = True
+        if m.group(2).strip() != 'ok':
+            ctx.tie_broken('tie', 'effects:' + m.group(1), m.group(2).strip()[:1500])
+            print('effect tables of the current source: %s: %s' % (m.group(1), m.group(2).strip()[:400]))
+    if not found:
+        ctx.notes.append('effect-table diagnosis produced no output: %s' % out[-400:])
